@@ -12,6 +12,8 @@ func scenarios(quick bool) []sigh.Scen {
 	s := []sigh.Scen{
 		// the sender itself opens a second call (usurping its first) / re-attaches while its message is still queued for the partner
 		{"sender-usurps-with-message-queued", [][]string{{"attach:a1:A:B", "wait", "send:a1:m1", "attach:a2:A:B"}, {"attach:b1:B:A"}}},
+		// the receiver's call is slow (blocked in Send) while a message is queued for it, and the receiver re-attaches
+		{"receiver-usurps-with-message-pending", [][]string{{"attach:a1:A:B", "attachs:b1:B:A", "wait", "send:a1:m1", "wait", "attach:b2:B:A", "wait", "resume:b1"}}},
 		{"both-attach", [][]string{{"attach:a1:A:B"}, {"attach:b1:B:A"}}},
 		{"b-reattach", [][]string{{"attach:a1:A:B"}, {"attach:b1:B:A", "cancel:b1", "attach:b2:B:A"}}},
 		{"b-usurp", [][]string{{"attach:a1:A:B"}, {"attach:b1:B:A", "attach:b2:B:A"}}},
